@@ -259,8 +259,13 @@ def static_positions(script):
     return out
 
 
+ANY_CALL_FAULTS = 0.0   # set by the failing-input search only: faults on arbitrary API calls are judged by the oracles, not modelled
+
+
 def gen_plan(rng, inv_index, crash_p, fault_p, script=None):
     plan = {"imm": [], "page_size": rng.choice([None, None, 1, 2, 3])}
+    if rng.random() < 0.12:
+        plan["first_empty"] = True
     if script is not None and rng.random() < 0.25:
         for pos, op in static_positions(script):
             if op in ("wait", "invoke", "cbnew") and rng.random() < 0.4:
@@ -268,7 +273,10 @@ def gen_plan(rng, inv_index, crash_p, fault_p, script=None):
                 if op == "wait":
                     o = {"k": "succeeded", "v": None}
                 plan["imm"].append([pos, o])
-    if rng.random() < crash_p:
+    if ANY_CALL_FAULTS and rng.random() < ANY_CALL_FAULTS:
+        plan["fail_any_call"] = rng.randrange(0, 3)
+        plan["fail_kind"] = rng.choice(["retriable", "nonretriable", "runtime"])
+    elif rng.random() < crash_p:
         plan["crash_tick"] = rng.randrange(0, 10)
     elif rng.random() < fault_p:
         plan["fail_sync_call"] = rng.randrange(0, 4)
@@ -312,7 +320,7 @@ def run_execution(script, seed, crash_p=0.25, fault_p=0.1, max_inv=40, limits=No
         else:
             plan = gen_plan(rng, k, crash_p if k < 8 else 0.0, fault_p if k < 8 else 0.0, script)
         recorded_plans.append({kk: v for kk, v in plan.items() if kk != "fail_exc"})
-        if plan.get("fail_sync_call") is not None:
+        if plan.get("fail_sync_call") is not None or plan.get("fail_any_call") is not None:
             plan["fail_exc"] = make_fail_exc(plan.get("fail_kind", "retriable"))
         start_tbl = canon_real_table(backend)
         res = run_invocation(script, backend, plan, seed=rng.randrange(1 << 30), limits=limits)
